@@ -25,6 +25,7 @@ def go_env(extra=None, scratch=True):
     env.update({'GOTOOLCHAIN': 'local', 'GOPROXY': 'off', 'GONOSUMDB': '*', 'GOSUMDB': 'off',
                 'CGO_ENABLED': env.get('CGO_ENABLED', '1')})
     env['GOFLAGS'] = '-mod=mod' if scratch else ''
+    env['GOCACHE'] = GOCACHE
     if extra:
         env.update(extra)
     return env
@@ -77,8 +78,33 @@ def build_cli(work, tags='verif'):
     return out
 
 
+GOCACHE = os.path.join(os.environ.get('VERIF_CACHE', '/root/.cache/kessoku-verif'), 'gocache')
+GOCACHE_LIMIT_KB = 12 * 1024 * 1024
+
+
+def trim_gocache():
+    """Scratch packages are unique, so the build cache only grows: drop it when it exceeds the limit (disk is limited)."""
+    os.makedirs(GOCACHE, exist_ok=True)
+    try:
+        kb = int(subprocess.run(['du', '-sk', GOCACHE], capture_output=True, text=True, timeout=300).stdout.split()[0])
+    except Exception:
+        return
+    if kb > GOCACHE_LIMIT_KB:
+        lock = GOCACHE + '.trim.lock'
+        try:
+            fd = os.open(lock, os.O_CREAT | os.O_EXCL | os.O_WRONLY)
+        except FileExistsError:
+            return
+        try:
+            subprocess.run(['go', 'clean', '-cache'], env=go_env(scratch=False), timeout=900)
+        finally:
+            os.close(fd)
+            os.remove(lock)
+
+
 def build_tools():
     """Build the harness tools (drivergen, extract, ...) into /verif/build (idempotent, fast)."""
+    trim_gocache()
     os.makedirs(os.path.join(VERIF, 'build'), exist_ok=True)
     p = run(['go', 'build', '-o', os.path.join(VERIF, 'build') + '/', './cmd/...'], cwd=os.path.join(VERIF, 'harness'),
             env=go_env(scratch=False), timeout=600)
